@@ -296,4 +296,53 @@ theorem save_reload_super {a : Int} {lv : Level} {dt sup : String} (hre : lv.rec
       · exact ih (some c.stop) h.2.2 x hx
   simpa using mapM_ok_of_forall reload id cs (this cs prev hs)
 
+/-! ### per-subrun time windows only ever drop rows -/
+
+theorem applyTimeRange1_sublist {tr : Int × Int} {c c' : Chunk} (h : applyTimeRange1 tr c = .ok c') :
+    List.Sublist c'.rows c.rows := by
+  unfold applyTimeRange1 at h
+  obtain ⟨c1, h1, h⟩ := bind_ok h
+  have hs1 : List.Sublist c1.rows c.rows := by
+    unfold trimStart at h1
+    split at h1
+    · obtain ⟨⟨l, r⟩, hsp, h1⟩ := bind_ok h1
+      simp only [pure, Except.pure, Except.ok.injEq] at h1
+      subst h1
+      rw [← split_rows hsp]
+      exact List.sublist_append_right _ _
+    · simp only [pure, Except.pure, Except.ok.injEq] at h1
+      subst h1; exact List.Sublist.refl _
+  unfold trimEnd at h
+  split at h
+  · split at h
+    · rename_i p hsp
+      obtain ⟨l, r⟩ := p
+      simp only [pure, Except.pure, Except.ok.injEq] at h
+      subst h
+      refine List.Sublist.trans ?_ hs1
+      rw [← split_rows hsp]
+      exact List.sublist_append_left _ _
+    · simp only [pure, Except.pure, Except.ok.injEq] at h
+      subst h; exact hs1
+    · cases h
+  · simp only [pure, Except.pure, Except.ok.injEq] at h
+    subst h; exact hs1
+
+/-- a loader with a time window yields a sublist (in order, nothing duplicated) of the full run's rows -/
+theorem applyTimeRange_sublist (tr : Int × Int) : ∀ (cs out : List Chunk), applyTimeRange tr cs = .ok out →
+    List.Sublist (rowsOf out) (rowsOf cs)
+  | [], out, h => by
+    simp only [applyTimeRange, pure, Except.pure, Except.ok.injEq] at h; subst h; exact List.Sublist.refl _
+  | c :: cs, out, h => by
+    unfold applyTimeRange at h
+    split at h
+    · rw [rowsOf_cons]
+      exact List.Sublist.trans (applyTimeRange_sublist tr cs out h) (List.sublist_append_right _ _)
+    · obtain ⟨c', h1, h⟩ := bind_ok h
+      obtain ⟨rest, h2, h⟩ := bind_ok h
+      simp only [pure, Except.pure, Except.ok.injEq] at h
+      subst h
+      rw [rowsOf_cons, rowsOf_cons]
+      exact List.Sublist.append (applyTimeRange1_sublist h1) (applyTimeRange_sublist tr cs rest h2)
+
 end Strax.Superrun
